@@ -9,8 +9,12 @@ list of comment rules, each with what Go's regexp answers on `text` (`sub` = the
 outcome (no report / one report) violates.  The empty list means the property holds.
 
 * the reporting rule is the first whose regexp matches and whose `Where` accepts the group texts;
-* the report's node is the span `[off+lo, off+hi)` of the whole match (of the `At` group if given) and
-  the file's bytes there are exactly the matched text;
+* the report's node is the span of the file that the whole match (the `At` group if given) stands for: from the
+  file offset of its first byte to just after the file offset of its last byte (`fileSpan`).  The comment text
+  is the file's bytes at `off` with some carriage returns removed (go/scanner does that in files with CRLF line
+  endings), so the file offset of `text[i]` is `off + i` plus the number of carriage returns removed before it
+  (`origins`); the file's bytes at the span are the matched text, again up to removed carriage returns, and
+  begin and end with the match's first and last byte (`spanBytesOK`);
 * `$$` / `$name` interpolate the whole match / the leftmost group of that name (empty when it did not
   participate), longest name first, shortened as C15 says in messages and never in suggestions;
 * the suggestion replaces exactly the node's span;
@@ -64,12 +68,44 @@ def varText (text : Bytes) (names : List Bytes) (v : List Int) (name : Bytes) : 
     | some (lo, hi) => slice text lo hi
     | none => []
 
+/-- the file offsets of the bytes of `t`, where `s` is the file from offset `pos` on: every byte of the text is
+the next byte of the file after the carriage returns the text does not have; `none` when `t` is not a prefix of
+`s` with carriage returns removed -/
+def origins : Bytes → Bytes → Nat → Option (List Nat)
+  | _, [], _ => some []
+  | [], _ :: _, _ => none
+  | b :: s, c :: t, pos =>
+    if b = c then (origins s t (pos + 1)).map (pos :: ·)
+    else if b = 13 then origins s (c :: t) (pos + 1)
+    else none
+
+/-- the span of the file that `text[lo:hi]` stands for: from the offset of `text[lo]` to just after the offset
+of `text[hi-1]`; an empty piece sits just after `text[lo-1]` (at the comment's start when `lo = 0`) -/
+def fileSpan (src : Bytes) (off : Nat) (text : Bytes) (lo hi : Nat) : Nat × Nat :=
+  match origins (src.drop off) text off with
+  | none => (off + lo, off + hi)
+  | some os =>
+    let after (i : Nat) : Nat := if i = 0 then off else os.getD (i - 1) 0 + 1
+    if lo < hi then (os.getD lo 0, after hi) else (after lo, after lo)
+
 /-- span of a variable as file offsets; a group that did not participate sits, empty, at the comment's start -/
-def varSpan (off : Nat) (names : List Bytes) (v : List Int) (name : Bytes) : Option (Nat × Nat) :=
+def varSpan (src : Bytes) (off : Nat) (text : Bytes) (names : List Bytes) (v : List Int) (name : Bytes) : Option (Nat × Nat) :=
   (groupOf names name).map fun i =>
     match groupIdx v i with
-    | some (lo, hi) => (off + lo, off + hi)
+    | some (lo, hi) => fileSpan src off text lo hi
     | none => (off, off)
+
+/-- `want` is `bs` with some carriage returns removed -/
+def delCR : Bytes → Bytes → Bool
+  | [], [] => true
+  | [], _ :: _ => false
+  | b :: bs, [] => b == 13 && delCR bs []
+  | b :: bs, w :: ws => if b = w then delCR bs ws else b == 13 && delCR bs (w :: ws)
+
+/-- the bytes `bs` of a reported span are exactly the bytes of the match `want`: equal up to carriage returns the
+scanner removed, none of them at either end of the span -/
+def spanBytesOK (bs want : Bytes) : Bool :=
+  delCR bs want && bs.head? == want.head? && bs.getLast? == want.getLast?
 
 def accepts (text : Bytes) (r : Rule) (v : List Int) : Bool :=
   match r.filter with
@@ -120,17 +156,18 @@ def firstAccepting (text : Bytes) : List Rule → Option (Rule × List Int)
 /-- the clauses of the property that `observed` violates -/
 def verdict (cfg : Int) (src : Bytes) (off : Nat) (text : Bytes) (rules : List Rule) (observed : Option Observed) :
     List String :=
+  if (origins (src.drop off) text off).isNone then ["comment-text-not-in-file"] else
   match firstAccepting text rules, observed with
   | none, none => []
   | none, some _ => ["unexpected-report"]
   | some _, none => ["expected-report-missing"]
   | some (r, v), some o =>
     if o.line ≠ r.line ∧ o.line ≠ r.altLine then ["not-the-first-accepting-rule"] else
-    let span := varSpan off r.names v (if r.location = [] then [36, 36] else r.location)
+    let span := varSpan src off text r.names v (if r.location = [] then [36, 36] else r.location)
     let want := (varText text r.names v (if r.location = [] then [36, 36] else r.location)).getD []
     (if o.node = span then [] else ["span"]) ++
     (match o.node with
-      | some (p, e) => if slice src p e = want then [] else ["span-bytes"]
+      | some (p, e) => if spanBytesOK (slice src p e) want then [] else ["span-bytes"]
       | none => []) ++
     (if o.msg = interpolate r.names (substFor text r v true cfg) 0 r.msg then [] else ["message"]) ++
     (if r.suggestion = [] then (if o.sugg.isNone then [] else ["suggestion-unexpected"]) else
